@@ -142,6 +142,31 @@ NOTES = {
     "C19-k": "first miss: one refresh per process -> H9: histories of up to three refreshes with the cached file left / torn / replaced / deleted in between",
     "C19-l": "first miss: both lock holders were of one kind -> H4m: a holder that records the refresh time beside one that does not",
     "C20-l": "first miss: observers were only compared with fresh managers -> every item of a context must occur in the start list of an earlier entry; a file with type tags inside groups with other content",
+    # seventh wave (p = strengthened from the sub-agent's report before the first matrix run)
+    "C01-m": "first miss: with placeholders allowed every case had one tag -> `Label/#, Weight/3.5 zzq`: a placeholder elsewhere excuses nothing",
+    "C01-n": "first miss: quick tier had no unpartnered old-style library -> `testlib_1.0.2` in the quick schemas (the thorough tier had it)",
+    "C03-m": "first miss: the text of a live tag was never replaced -> `respell_check`: `tag.tag = <same tag, other letter case>` against a fresh tag",
+    "C03-n": "first miss (p): no value repeated a term of the tag's own path -> `/Label` after `Label`, a prefix of the parent's name",
+    "C04-m": "first miss: one misplaced reserved tag per group -> `(Red, (Onset, Event-context))`, three in one group",
+    "C04-n": "first miss: no text shared by tags of different value classes -> `Description/Left side`, `Label/Left side`",
+    "C05-m": "first miss: every schema had prologue and epilogue -> edits `clear-prologue`, `clear-epilogue`, both (which exposed defect 75)",
+    "C05-n": "first miss: TSV directories were given without a trailing separator -> save / load of `dir/`",
+    "C06-n": "first miss: every level of a categorical column was annotated -> `catempty` (`\"rest\": \"\"`)",
+    "C07-m": "first miss: one file per validator object -> `file_sequence_check`: sequences of 2-3 files through one SpreadsheetValidator",
+    "C07-n": "first miss (p): tag columns were always asked for by their exact name -> F8c: `hed` for a header `HED`",
+    "C08-n": "first miss (p): a stray `}` never came before the first `{` -> `Red}, {val}`",
+    "C09-m": "first miss: duplicates only within one dictionary -> two dictionaries merged (`DefinitionDict([d1, d2])`)",
+    "C09-n": "first miss (p): altered content was always written after the tag -> `((content), Def-expand/Name)`",
+    "C10-m": "first miss: onsets were small numbers -> seconds since 1970 with rows 0.125 s / 0.001 s apart",
+    "C10-n": "first miss: onsets had one digit before the point -> `3.0, 9.0, 10.0, 20.0, 100.0` in every file order",
+    "C12-m": "first miss: offsets were checked without a namespace -> `sc:Item/Foo/Red` and friends under `sc:8.3.0`",
+    "C13-n": "first miss: the same library twice only as two list entries -> `testlib_2.0.0,testlib_2.0.0` inside one entry",
+    "C14-n": "first miss: out-of-range ids were non-zero -> `HED_0000000`",
+    "C15-m": "first miss (p): laws never counted -> one atom k times matches iff k tags match it",
+    "C15-n": "first miss (p): batches of queries were all well-formed -> a malformed query before well-formed ones",
+    "C17-m": "first miss (p): merged runs had equal durations -> durations 1, 10, 1",
+    "C18-m": "not detected: needs a file with a BIDS `task-go` name on which the operations are a no-op, edited after the backup, and `remodel -t go`; the trees of C18 use the `task_go` form `BackupManager` understands (see section 7a on the two name forms)",
+    "C19-n": "first miss: nothing watched *where* the lock ends -> H6 monitor: every download by the refresher happens while it holds the lock",
     "C19-h": "first miss: at most two refresh attempts per directory -> every history of <= 4 gaps from {1 s, T-1, T, 2T} against a one-number model",
 }
 
